@@ -138,6 +138,140 @@ def one_construction(rec, rng, dims, modes, ordering, pairs, entry, extras=True)
             rec.violation(f"roundtrip-raised:{type(exc).__name__}", {"entry": entry, **ctx, "error": str(exc)[:200]})
 
 
+def variant_constructions(rec, rng, dims, modes, ordering, pairs):
+    """The same content through the less travelled argument forms: one-shot iterators, a Format object,
+    omitted dimensions and/or format (content and order must survive; dimensions = largest index + 1),
+    every pickle protocol, copy/deepcopy, and a to_format chain that must come back to the very same
+    canonical structure."""
+    import copy
+
+    from tensora import Tensor
+    from tensora.format import parse_format
+
+    fmt = taco.fmt_text(modes, ordering)
+    summed = expected_sum(pairs)
+    want = {c: v for c, v in summed.items() if v != 0}
+    ctx = {"format": fmt, "dimensions": list(dims), "pairs": [[list(c), v] for c, v in pairs]}
+    cs = [c for c, _ in pairs]
+    vs = [v for _, v in pairs]
+    n = len(dims)
+    which = rng.choice(["iterators", "format-object", "no-dimensions", "no-format", "neither", "pickle-protocols", "copy", "chain"])
+    rec.evaluated()
+    rec.countd("variant_constructions", which)
+    try:
+        if which == "iterators":
+            if n and rng.random() < 0.5:
+                cols = tuple(iter([c[d] for c in cs]) for d in range(n))
+                t = Tensor.from_soa(cols, iter(vs), dimensions=tuple(dims), format=fmt)
+            else:
+                t = Tensor.from_aos(iter(cs), iter(vs), dimensions=tuple(dims), format=fmt)
+            check_tensor(rec, t, dims, modes, ordering, want, cs, which, ctx)
+        elif which == "format-object":
+            t = Tensor.from_aos(cs, vs, dimensions=tuple(dims), format=parse_format(fmt).unwrap())
+            check_tensor(rec, t, dims, modes, ordering, want, cs, which, ctx)
+        elif which in ("no-dimensions", "no-format", "neither"):
+            if not cs:
+                return
+            kw = {}
+            if which != "no-dimensions":
+                pass
+            else:
+                kw["format"] = fmt
+            if which == "no-format":
+                kw["dimensions"] = tuple(dims)
+            entry = rng.choice(["aos", "dok", "soa"]) if n else "aos"
+            if entry == "dok":
+                t = Tensor.from_dok(dict(pairs), **kw)
+                want_here = {c: v for c, v in dict(pairs).items() if v != 0}
+            elif entry == "soa":
+                t = Tensor.from_soa(tuple([c[d] for c in cs] for d in range(n)), vs, **kw)
+                want_here = want
+            else:
+                t = Tensor.from_aos(cs, vs, **kw)
+                want_here = want
+            exp_dims = tuple(dims) if "dimensions" in kw else tuple(max(c[d] for c in cs) + 1 for d in range(n))
+            if t.order != n or tuple(t.dimensions) != exp_dims:
+                rec.violation("default-dimensions", {"entry": f"{entry}:{which}", **ctx, "got": list(t.dimensions), "want": list(exp_dims)})
+                return
+            fm = tuple("d" if m.name == "dense" else "s" for m in t.format.modes)
+            if "format" in kw and (fm != tuple(modes) or tuple(t.format.ordering) != tuple(ordering)):
+                rec.violation("format", {"entry": f"{entry}:{which}", **ctx, "got": t.format.deparse()})
+                return
+            check_tensor(rec, t, exp_dims, fm, tuple(t.format.ordering), want_here, None, f"{entry}:{which}", ctx)
+        elif which == "pickle-protocols":
+            t = Tensor.from_aos(cs, vs, dimensions=tuple(dims), format=fmt)
+            raw = taco.read_raw(t)
+            for proto in range(0, pickle.HIGHEST_PROTOCOL + 1):
+                t3 = pickle.loads(pickle.dumps(t, protocol=proto))
+                if taco.read_raw(t3) != raw:
+                    rec.violation("pickle-changes-raw-structure", {"entry": f"protocol {proto}", **ctx})
+                check_tensor(rec, t3, dims, modes, ordering, want, None, f"pickle-protocol-{proto}", ctx)
+        elif which == "copy":
+            t = Tensor.from_aos(cs, vs, dimensions=tuple(dims), format=fmt)
+            raw = taco.read_raw(t)
+            for label, t3 in (("copy", copy.copy(t)), ("deepcopy", copy.deepcopy(t))):
+                check_tensor(rec, t3, dims, modes, ordering, want, None, label, ctx)
+            del t3
+            if taco.read_raw(t) != raw:
+                rec.violation("copy-changes-original", {**ctx})
+        else:
+            t = Tensor.from_aos(cs, vs, dimensions=tuple(dims), format=fmt)
+            raw = taco.read_raw(t)
+            cur = t
+            hops = []
+            for _ in range(rng.randint(2, 4)):
+                m2, o2 = rng.choice(taco.all_formats(n))
+                hops.append(taco.fmt_text(m2, o2))
+                cur = cur.to_format(hops[-1])
+                check_tensor(rec, cur, dims, m2, o2, want, None, "to_format-chain", {**ctx, "hops": list(hops)})
+            back = cur.to_format(fmt)
+            rb = taco.read_raw(back)
+            # explicit zeros are dropped by to_format (it goes through to_dok); compare with the canonical build of the non-zeros
+            ind, vals = taco.build(want, dims, modes, ordering)
+            if (rb[3], list(rb[4])[: len(vals)]) != (ind, list(vals)):
+                rec.violation("to_format-chain-does-not-return-to-canonical-structure", {**ctx, "hops": hops, "got": str(rb[3:])[:300], "want": str((ind, vals))[:300]})
+    except Exception as exc:  # noqa: BLE001
+        rec.violation(f"variant-raised:{type(exc).__name__}", {"entry": which, **ctx, "error": str(exc)[:200]})
+
+
+BIG = [65535, 65536, 70001, 1 << 20]
+ODD_VALUES = [0.1, 1e-300, 1.7976931348623157e308, -2.2250738585072014e-308, 3, 1 / 3, 123456789.125]
+
+
+def big_coordinate_constructions(rec, rng):
+    """Coordinates beyond 16 bits under compressed levels (a dense level of that size would allocate the whole
+    dimension - one such case is kept small enough: 70001 doubles) and values that are not dyadic."""
+    order = rng.choice([1, 2, 2, 3])
+    modes, ordering = rng.choice([f for f in taco.all_formats(order)])
+    dims = []
+    for d in range(order):
+        lvl = list(ordering).index(d)
+        dense_below = any(m == "d" for m in modes[lvl:])
+        dims.append(rng.choice(BIG) if not dense_below else rng.choice([1, 2, 3]))
+    if all(m == "d" for m in modes):
+        dims[ordering[0]] = 70001
+    cs = []
+    for _ in range(rng.randint(1, 6)):
+        cs.append(tuple(rng.choice([0, x - 1, x // 2, max(0, x - 2)]) for x in dims))
+    pairs = [(c, rng.choice(ODD_VALUES)) for c in cs]
+    rec.count("big_coordinate_constructions")
+    entry = rng.choice(["aos", "soa", "dok"])
+    one_construction(rec, rng, tuple(dims), modes, ordering, pairs, entry, extras=False)
+    # to_format only to formats that store every big dimension in a compressed level
+    from tensora import Tensor
+
+    try:
+        t = Tensor.from_aos([c for c, _ in pairs], [v for _, v in pairs], dimensions=tuple(dims), format=taco.fmt_text(modes, ordering))
+        o2 = list(ordering)
+        rng.shuffle(o2)
+        m2 = tuple("s" if dims[d] > 3 else rng.choice("ds") for d in o2)
+        want = {c: v for c, v in expected_sum(pairs).items() if v != 0}
+        t2 = t.to_format(taco.fmt_text(m2, tuple(o2)))
+        check_tensor(rec, t2, tuple(dims), m2, tuple(o2), want, None, "big->to_format", {"format": taco.fmt_text(modes, ordering), "dimensions": list(dims)})
+    except Exception as exc:  # noqa: BLE001
+        rec.violation(f"roundtrip-raised:{type(exc).__name__}", {"entry": "big", "dimensions": list(dims), "error": str(exc)[:200]})
+
+
 def rejection(rec, rng, dims, modes, ordering, pairs):
     """Inject one out-of-range or negative coordinate at each dimension position."""
     from tensora import Tensor
@@ -236,6 +370,10 @@ def shard(rec, tier, index, n_shards):
             rec.sample({"format": taco.fmt_text(modes, ordering), "dimensions": dims, "pairs": [[list(c), v] for c, v in pairs], "entry": entry})
         if n and k % 4 == 0:
             rejection(rec, rng, dims, modes, ordering, [(c, 1.0) for c in chosen[:3]])
+        if k % 3 == 1:
+            variant_constructions(rec, rng, dims, modes, ordering, pairs)
+        if k % 40 == 7:
+            big_coordinate_constructions(rec, rng)
 
 
 def main(tier):
@@ -243,7 +381,7 @@ def main(tier):
     bad = controls.all_fired(controls.validator_controls())
     for b in bad:
         run.inconclusive_because(f"positive control did not fire: {b}")
-    run_shards(run, "c09", 12 if tier == "quick" else 16, timeout_s=900 if tier == "quick" else 14400)
+    run_shards(run, "c09", 12 if tier == "quick" else 16, timeout_s=3600 if tier == "quick" else 14400)
     if run.counters.get("rejection_probes", 0) < 500 or run.evaluations < 10000:
         run.inconclusive_because("too few constructions")
     run.exhaustive = False
